@@ -7,10 +7,17 @@ use rarena_allocator::{Options, sync, unsync};
 use serde_json::{Value, json};
 use std::io::Write;
 
-fn file_state(p: &std::path::Path) -> Value {
+/// Foreign bytes in front of the arena when it is mapped at a file offset (`Options::with_offset`).
+const FOREIGN: u8 = 0xF0;
+
+/// The file as the arena sees it: the bytes from the mapping offset on; `pre_len` / `pre_ok` describe the foreign bytes before it.
+fn file_state(p: &std::path::Path, off: usize) -> Value {
   match std::fs::read(p) {
-    Ok(b) => json!({"exists": true, "len": b.len(), "rle": rle(&b)}),
-    Err(_) => json!({"exists": false, "len": 0, "rle": []}),
+    Ok(b) => {
+      let cut = off.min(b.len());
+      json!({"exists": true, "len": b.len() - cut, "rle": rle(&b[cut..]), "pre_len": cut, "pre_ok": b[..cut].iter().all(|x| *x == FOREIGN)})
+    }
+    Err(_) => json!({"exists": false, "len": 0, "rle": [], "pre_len": 0, "pre_ok": true}),
   }
 }
 
@@ -20,6 +27,7 @@ fn attempt<A: ArenaX>(path: &std::path::Path, att: &Value) -> Value {
     .with_freelist(freelist_of(att["kind"].as_str().unwrap_or("opt")))
     .with_magic_version(att["magic"].as_u64().unwrap_or(0) as u16)
     .with_minimum_segment_size(att["minseg"].as_u64().unwrap_or(8) as u32)
+    .with_offset(att["offset"].as_u64().unwrap_or(0))
     .with_read(true);
   let capv = att["cap"].as_u64().unwrap_or(0);
   o = o.maybe_capacity(if capv == 0 { None } else { Some(capv as u32) });
@@ -64,11 +72,13 @@ pub fn run(args: &[String]) {
     let flavor = d["flavor"].as_str().unwrap_or("sync");
     let base = &d["base"];
     let path = scratch_path(&workdir, "open");
+    // the arena may live at an offset into the file: everything before it is foreign data
+    let offset = base["offset"].as_u64().unwrap_or(0) as usize;
     // 1. a valid file with some history
     let mut cfg = base.clone();
     cfg["unify"] = json!(true);
     let created = unsafe {
-      let o = options_of(&cfg).with_create_new(true).with_read(true).with_write(true);
+      let o = options_of(&cfg).with_offset(offset as u64).with_create_new(true).with_read(true).with_write(true);
       match flavor {
         "sync" => o.map_mut::<sync::Arena, _>(&path).map(|a| Box::new(Inst::new(a, None, "file")) as Box<dyn Driven>),
         _ => o.map_mut::<unsync::Arena, _>(&path).map(|a| Box::new(Inst::new(a, None, "file")) as Box<dyn Driven>),
@@ -90,23 +100,35 @@ pub fn run(args: &[String]) {
       }
     }
     writeln!(out, "{}", reset).unwrap();
-    // 2. damage
+    if offset > 0 {
+      if let Ok(mut bytes) = std::fs::read(&path) {
+        let cut = offset.min(bytes.len());
+        for b in bytes[..cut].iter_mut() {
+          *b = FOREIGN;
+        }
+        std::fs::write(&path, &bytes).unwrap();
+      }
+    }
+    // 2. damage (positions are relative to the mapping offset; a truncation may cut into the foreign bytes)
     for m in d["mut"].as_array().map(|v| v.as_slice()).unwrap_or(&[]) {
       let mut bytes = std::fs::read(&path).unwrap_or_default();
       match m["k"].as_str().unwrap() {
         "set" => {
-          let at = m["at"].as_u64().unwrap() as usize;
+          let at = m["at"].as_u64().unwrap() as usize + offset;
           for (i, b) in m["bytes"].as_array().unwrap().iter().enumerate() {
             if at + i < bytes.len() {
               bytes[at + i] = b.as_u64().unwrap() as u8;
             }
           }
         }
-        "truncate" => bytes.truncate(m["len"].as_u64().unwrap() as usize),
-        "replace" => bytes = m["bytes"].as_array().unwrap().iter().map(|b| b.as_u64().unwrap() as u8).collect(),
+        "truncate" => bytes.truncate((m["len"].as_i64().unwrap() + offset as i64).max(0) as usize),
+        "replace" => {
+          bytes.truncate(offset);
+          bytes.extend(m["bytes"].as_array().unwrap().iter().map(|b| b.as_u64().unwrap() as u8));
+        }
         "fill" => {
           let v = m["v"].as_u64().unwrap() as u8;
-          for b in bytes.iter_mut() {
+          for b in bytes.iter_mut().skip(offset) {
             *b = v;
           }
         }
@@ -120,14 +142,14 @@ pub fn run(args: &[String]) {
     }
     // 3. attempts
     for (i, att) in d["attempts"].as_array().unwrap().iter().enumerate() {
-      let before = file_state(&path);
+      let before = file_state(&path, offset);
       writeln!(out, "{}", json!({"ev": "begin", "i": i + 1, "att": att})).unwrap();
       out.flush().unwrap();
       let res = match flavor {
         "sync" => attempt::<sync::Arena>(&path, att),
         _ => attempt::<unsync::Arena>(&path, att),
       };
-      let after = file_state(&path);
+      let after = file_state(&path, offset);
       let _ = take_api();
       writeln!(out, "{}", json!({"ev": "open", "i": i + 1, "att": att, "before": before, "after": after, "res": res})).unwrap();
     }
